@@ -199,6 +199,38 @@ NEEDS = {
                   'plane read / write with a negative offset and an explicit size larger than what is left'),
     'C19-r2-m2': ('ubuf_pic_common_dup(): vappend initialised from vprepend',
                   'original with more lines above the window than below (manager margins 4/0, or cropped at the top) at dup time, duplicate extended downwards'),
+    'C02-r4-m1': ('ubuf_block_common_dup(): head lookup cache of the duplicate set to the segment of the source chain',
+                  'block of >= 2 segments whose last access before the dup was in a later segment; first structural operation through the duplicate at or beyond that offset edits the descriptor of the original'),
+    'C03-r4-m1': ('ubuf_block_delete(): range check rewritten as offset + size > total_size',
+                  'delete with a negative offset and an explicit size running past the end: tail segments shrunk, then an error is returned with the size unchanged'),
+    'C10-r4-m1': ('udict_cmp(): second pass looks the attributes of the second dictionary up in the second dictionary',
+                  'second dictionary a strict superset of the first (or first empty)'),
+    'C11-r4-m1': ('UREF_CLOCK_GET_DTS: refuses when dts_pts_delay > stored PTS',
+                  'date stored as PTS with a delay numerically larger than the PTS (PTS earlier than DTS, or near-zero time line), DTS view read'),
+    'C13-r4-m1': ('upump_common_restart(): early return when a blocker is held, before started is recorded',
+                  'upump_restart on a pump that is not started while a blocker is held, then the last blocker is released'),
+    'C14-r4-m1': ('upipe_agg_input(): overflow test uses the announced block size instead of the size of the incoming buffer',
+                  'flow definition announcing a block size, input larger than announced arriving when stored + announced <= MTU < stored + real'),
+    'C15-r4-m1': ('upipe_ts_pesd_decaps(): dts_pts_delay computed as pts > dts ? pts - dts : 0 instead of modulo 2^33',
+                  'PES header with PTS and DTS on either side of the 33-bit roll-over'),
+    'C16-r4-m1': ('upipe_ts_psim_merge(): wrong-header branch frees the partial section without losing sync',
+                  'section with an invalid header while in sync, immediately followed by a unit start with a non-zero pointer_field'),
+    'C17-r4-m1': ('upipe_h26xf_stream_ue(): single-read fast path extended from i <= 24 to i < 32',
+                  'exp-Golomb code of 26..31 significant bits at a bit alignment that overfills the 32-bit cache'),
+    'C19-r4-m1': ('ubuf_pic_common_check_skip(): negative skips no longer made positive before the modulo on size_t granularities',
+                  'format whose macropixel * hsub is not a power of two (v210), negative hskip: legal extensions refused, non-multiples accepted through the manager control'),
+    'C01-r4-m1': ('ubuf_mem_mgr_alloc_from_flow_def(): incomplete plane description returns NULL without releasing the half-built manager',
+                  'picture flow definition announcing more planes than it describes (NOT CAUGHT: no workload passes malformed flow definitions to the manager factory)'),
+    'C04-r4-m1': ('upipe_dup_output_alloc(): throw_ready moved after store_flow_def',
+                  'dup output sub-pipe allocated after the dup pipe received its flow definition'),
+    'C05-r4-m1': ('upipe_trickp_check_start(): held buffers of subpicture sub-pipes not released at start',
+                  'pic.sub. sub-pipe receiving a buffer before playback starts (NOT CAUGHT: the trickplay pipe is only under the life-cycle automaton, its hold-until-start behaviour has no oracle)'),
+    'C12-r4-m1': ('upipe_qsrc_provide_request(): sink latency answer read as unsigned int',
+                  'sink latency of at least 2^32 ticks answered across a queue'),
+    'C18-r4-m1': ('ubits_put(): cache not cleared when a field ends exactly on a 32-bit boundary',
+                  '32-bit field starting on a 32-bit boundary after a field with other bits set'),
+    'C20-r4-m1': ('_upipe_buffer_set_max_size(): clamps the stored high limit',
+                  'set_high_limit(H) then set_max_size(M < H), then get_high_limit'),
 }
 
 
